@@ -28,8 +28,17 @@
         r:<id>:<file>:<fpos>:<blen> … (and exactly their data), it is opened (LoadBlockIndex + Seek), then
         w:<id>:<len> = writeOne, x:<id>:<len> = killed after the roll-over check/create + restart, m:<id>:<len> = killed between
         the data write and the index write + restart, o = restart; b = 1: the else-if variant of LoadBlockIndex (not what the code does)
+    idx <tok> …                              -> ok <append position> <flags>:<file> … | <ipos of every record the node holds>
+        index file with positions and flag bytes (Model/PersistIdx.lean, facts flagRewriteSource / invalidRecordAdvances of
+        Gen/C07Facts.lean): r:<flags>:<file> … = the records of the directory, opened by LoadBlockIndex; then, in order,
+        f:<record number>:<bits> = setBlockFlag(bits) on the record the node holds for that record number (no-op when it holds
+        none), a:<flags>:<file> = writeOne; the reply is the file after that and what a restart (LoadBlockIndex) computes on it
+    closeg <tip> <height> <tok> …            -> ok <tip-before>:<h>:<tip-after>:<h> …   one entry per restart
+        what Close leaves in UTXO.db (Model/PersistIdx.lean, fact closeSaveGuard): the node starts clean at <tip>/<height>;
+        c:<block> commit, u:<parent> undo, i:<skip> Idle, r = clean shutdown + restart
 -/
 import GocoinV.Model.Persist
+import GocoinV.Model.PersistIdx
 import GocoinV.Model.PersistSpec
 import GocoinV.Model.PersistPos
 import GocoinV.Model.PersistRoll
@@ -136,8 +145,59 @@ def posQuery (a : Bool) (len : Nat) (recs : List PRec) (ops : List POp) : String
   let rs := s.d.idx.map (fun r => s!"{r.id}:{r.fpos}:{r.blen}")
   s!"ok {s.d.dat.len} {if readsBack s.d then 1 else 0}" ++ (if rs.isEmpty then "" else " " ++ " ".intercalate rs)
 
+open GocoinV.Persist.Idx in
+def parseIdx (recs : List IRec) (acts : List (String × Nat × Nat)) : List String → Option (List IRec × List (String × Nat × Nat))
+  | [] => some (recs.reverse, acts.reverse)
+  | t :: rest =>
+    match t.splitOn ":" with
+    | ["r", f, fi] =>
+      match f.toNat?, fi.toNat? with
+      | some f, some fi => if acts.isEmpty then parseIdx (⟨f, fi⟩ :: recs) acts rest else none
+      | _, _ => none
+    | [k, a, b] =>
+      match a.toNat?, b.toNat? with
+      | some a, some b => if k == "f" || k == "a" then parseIdx recs ((k, a, b) :: acts) rest else none
+      | _, _ => none
+    | _ => none
+
+open GocoinV.Persist.Idx GocoinV.Gen.C07Facts in
+def idxQuery (recs : List IRec) (acts : List (String × Nat × Nat)) : String :=
+  let s0 := iopen invalidRecordAdvances recs
+  let s := acts.foldl (fun (s : ISt) (a : String × Nat × Nat) =>
+    if a.1 == "a" then istep flagRewriteSource invalidRecordAdvances s (.append ⟨a.2.1, a.2.2⟩)
+    else
+      -- the record the node holds for record number a.2.1
+      match s.mems.findIdx? (fun m => m.ipos == a.2.1 * 136) with
+      | some i => istep flagRewriteSource invalidRecordAdvances s (.flag i a.2.2)
+      | none => s) s0
+  let e := iopen invalidRecordAdvances s.disk
+  let rs := s.disk.map (fun r => s!"{r.flags}:{r.file}")
+  let ps := e.mems.map (fun m => toString m.ipos)
+  s!"ok {e.pos}" ++ (if rs.isEmpty then "" else " " ++ " ".intercalate rs) ++ " |" ++ (if ps.isEmpty then "" else " " ++ " ".intercalate ps)
+
+open GocoinV.Persist.Idx in
+def parseClose (acc : List COp) : List String → Option (List COp)
+  | [] => some acc.reverse
+  | "r" :: rest => parseClose (.restart :: acc) rest
+  | t :: rest =>
+    match t.splitOn ":" with
+    | ["c", b] => match b.toNat? with | some b => parseClose (.commit b :: acc) rest | none => none
+    | ["u", b] => match b.toNat? with | some b => parseClose (.undo b :: acc) rest | none => none
+    | ["i", b] => match b.toNat? with | some b => parseClose (.idle b :: acc) rest | none => none
+    | _ => none
+
 def step (st : OState) (toks : List String) : OState × String :=
   match toks with
+  | "idx" :: rest =>
+    match parseIdx [] [] rest with
+    | some (recs, acts) => (st, idxQuery recs acts)
+    | none => (st, "bad-op")
+  | "closeg" :: t :: h :: rest =>
+    match t.toNat?, h.toNat?, parseClose [] rest with
+    | some t, some h, some ops =>
+      let ps := GocoinV.Persist.Idx.restartPairs GocoinV.Gen.C07Facts.closeSaveGuard { tip := t, height := h, dTip := t, dHeight := h } ops
+      (st, "ok" ++ String.join (ps.map (fun p => s!" {p.1.1}:{p.1.2}:{p.2.1}:{p.2.2}")))
+    | _, _, _ => (st, "bad-op")
   | "pos" :: a :: len :: rest =>
     match a.toNat?, len.toNat?, parsePos [] [] rest with
     | some a, some len, some (recs, ops) => if a > 1 then (st, "bad-op") else (st, posQuery (a == 1) len recs ops)
